@@ -143,6 +143,16 @@ def r4_walk(ctx, F):
         a = [vf.render(x, b, short=True, vfx=v) for x in v.call_args(mk[0])]
         ok = a[1] == "0" and "len(" in a[2]
     ctx.check("R4-dirty-walk", "bitmap-call", ok, "IoBuffers::mark_dirty does not mark (0, len) of each truncated slice in its bitmap", loc=b.loc())
+    # ... for every slice walked: no iteration of the loop can come back to the loop header without having passed the bitmap call
+    if ok:
+        hs0 = [h for h in v.loop_headers() if b.dominates(h, mk[0].bb) and b.can_reach(mk[0].bb, h)]
+        okm = len(hs0) == 1
+        if okm:
+            h0 = hs0[0]
+            okm = all(h0 not in b.reach_set(sx, avoid={mk[0].bb}) for sx in b.succ[h0] if b.can_reach(sx, h0))
+        ctx.check("R4-dirty-walk", "bitmap-call-unconditional", okm,
+                  "IoBuffers::mark_dirty can finish an iteration (a slice the server wrote into) without marking it in the bitmap: "
+                  "every page of the written range must be logged, whatever the log already contains", loc=mk[0].loc())
     # loop exits: only `rem == 0` and iterator exhaustion
     exits = []
     hs = v.loop_headers()
